@@ -730,7 +730,7 @@ func (tr *trans) frameObligations(st State, k int, pos token.Pos) {
 	fp := tr.footprint(env, tr.fc.Modifies)
 	next0 := tr.getState(tr.entry, "$next")
 	for _, name := range sortedKeys(tr.known) {
-		if name == "$next" || strings.HasPrefix(name, "call.") || strings.HasPrefix(name, "iter.") || strings.HasPrefix(name, "lock.") {
+		if name == "$next" || strings.HasPrefix(name, "call.") || strings.HasPrefix(name, "iter.") || strings.HasPrefix(name, "lock.") || strings.HasPrefix(name, "L.") || strings.HasPrefix(name, "defer.") {
 			continue
 		}
 		if _, ok := tr.stateSort[name]; !ok {
